@@ -18,6 +18,7 @@ instance : Mul CF := ⟨fun a b => ⟨a.re * b.re - a.im * b.im, a.re * b.im + a
 instance : Div CF := ⟨fun a b =>
   let n := b.re * b.re + b.im * b.im
   ⟨(a.re * b.re + a.im * b.im) / n, (a.im * b.re - a.re * b.im) / n⟩⟩
+def conj (z : CF) : CF := ⟨z.re, -z.im⟩
 def exp (z : CF) : CF := let r := Float.exp z.re; ⟨r * Float.cos z.im, r * Float.sin z.im⟩
 /-- cos / sin of a complex number (the code only passes real arguments) -/
 def cos (z : CF) : CF := ⟨Float.cos z.re * Float.cosh z.im, -(Float.sin z.re * Float.sinh z.im)⟩
